@@ -90,9 +90,9 @@ def rules(fx, rep):
     sswu = C.check_sswu_consts(fx, rep)
     C.check_iso_tables(fx, rep, sswu)
     c17.rules(fx, rep)
-    c13.rule_h2f(fx, rep)
-    c13.rule_from_okm(fx, rep)
-    c13.rule_fq2(fx, rep)
+    c13.rule_h2f_semantic(fx, rep)
+    C.check_okm_consts(fx, rep)
+    c13.rule_from_okm_semantic(fx, rep)
     c13.rule_xmd_semantic(fx, rep)
     c13.rule_xof_semantic(fx, rep)
 
